@@ -70,6 +70,10 @@ def run(ctx):
         atoms = [b"", b"", b"a", b"b", b"ab"]
         lines = [d.join(rng.choice(atoms) for _ in range(rng.randrange(1, 7))) for _ in range(rng.randrange(8, 60))]
         cases.append((["-k", spec] + (["-t", dl] if dl != "\t" else []), keyf, lines))
+    pr_ = pvlib.low32_pair(1, b"line")
+    if pr_:
+        cases.append(([], lambda l: l, [pr_[0], pr_[1], pr_[0], pr_[1], b"other"]))
+        cases.append((["-k", "2", "-t", ","], lambda l: l.split(b",")[1], [b"a," + pr_[0] + b",1", b"b," + pr_[1] + b",2", b"c," + pr_[0] + b",3"]))
     for i, case in enumerate(cases):
         args, keyf, lines = case[:3]
         stall_lines = case[3] if len(case) > 3 else None
